@@ -55,11 +55,17 @@ MAIN = """model Main
   Real x;
   Real v[2];
   Real y;
+  Real tmp_a;
+  Real aux_b;
+  Real _c;
 equation
   der(x) = pm * x + %(v)s + q + cm;
   v[1] = x;
   v[2] = 2 * x;
   y = v[1];
+  tmp_a = 2 * x;
+  aux_b = tmp_a + 1;
+  _c = 3 * x;
 end Main;
 """
 BASE = "model Base\n  parameter Real q = %(v)s;\nend Base;\n"
